@@ -75,6 +75,7 @@ func init() {
 		Run: func(c *rules.Ctx) {
 			obNilGuard(c, "C18.1")
 			obPanicAnalysis(c, "C18.2")
+			obUnits(c, "C18.4")
 			ob3 := c.R.Ob("C18.3", "sumcheck/S1", "a panicking default in the checker / hover / LSP handlers sits under an exhaustive switch that also handles nil (partial trees)", 10)
 			c.S1(ob3, selPkgs(nil, map[string]bool{relAnalysis: true}, relAnalysis, relLsp))
 		},
